@@ -53,6 +53,13 @@ def _kinds_ok(kinds, allowed, required_any):
         any(k.startswith(tuple(required_any)) for k in kinds)
 
 
+def _collapsed_to_one_per_kind(len_detail, kinds):
+    """The re-read component has exactly one check per distinct kind."""
+    return isinstance(len_detail, dict) and \
+        len_detail.get("orig") == len(kinds) and \
+        len_detail.get("back") == len(set(kinds)) < len(kinds)
+
+
 COMMON_TAIL = ("eq-false", "text-2nd-gen-differs", "verdict-differs")
 ARGS = lambda p: (f"{p}.check:", f"{p}.check-arg:", f"{p}.check-opt:")
 PLACES = ("col", "idx", "frame")
@@ -81,6 +88,10 @@ def classify(route, kinds, tokens, detail):
                 else:
                     out.add(v)
         return out
+
+    def check_kind_list(place):
+        return [t.split(":", 1)[1] for t in T
+                if t.startswith(f"{place}.check:")]
 
     def check_names(place):
         return {t.split(":", 1)[1] for t in T
@@ -158,12 +169,16 @@ def classify(route, kinds, tokens, detail):
         if f"{place}.checks:duplicate-kind" in T and \
                 _all(T, *ARGS(place), f"{place}.checks:duplicate-kind",
                      f"{place}.dtype:", *IDX_CTX) and \
-                _kinds_ok(K, (f"proj:{place}.checks",
-                              "rewrite-exc:AttributeError") + COMMON_TAIL,
-                          (f"proj:{place}.checks.len",)):
+                _kinds_ok(K, (f"proj:{place}.checks",) + COMMON_TAIL,
+                          (f"proj:{place}.checks.len",)) and \
+                _collapsed_to_one_per_kind(
+                    (detail or {}).get(f"proj:{place}.checks.len"),
+                    check_kind_list(place)):
             return "checks-keyed-by-name-duplicate-kind-collapsed"
 
     # ---- statistics that the writers cannot express ----------------------
+    wtext = " ".join(str(v) for k, v in (detail or {}).items()
+                     if str(k).startswith("write-exc"))
     for place in PLACES:
         if not _all(T, *ARGS(place), f"{place}.dtype:", *IDX_CTX):
             continue
@@ -171,12 +186,21 @@ def classify(route, kinds, tokens, detail):
         if len(names) != 1:
             continue
         name = next(iter(names))
+        dtl = {"ts-second", "ts-subsecond", "ts-tz", "td"}
+        if place == "frame" and route in ("yaml", "json") and (
+                ac & (dtl | {"list:" + c for c in dtl})) and \
+                "frozenset" not in wtext and _kinds_ok(
+                K, ("write-exc:RepresenterError", "write-exc:TypeError"),
+                ("write-exc",)):
+            # dataframe-level checks are serialised without any dtype
+            return "frame-level-check-datetimelike-statistic-not-converted"
         if name == "unique_values_eq":
-            if route in ("yaml", "json") and _kinds_ok(
-                    K, ("write-exc:RepresenterError", "write-exc:TypeError"),
-                    ("write-exc",)):
+            if route in ("yaml", "json") and "frozenset" in wtext and \
+                    _kinds_ok(K, ("write-exc:RepresenterError",
+                                  "write-exc:TypeError"), ("write-exc",)):
                 return "unique_values_eq-statistics-hold-a-frozenset"
-            if route == "script" and _kinds_ok(
+            if route == "script" and "frozenset(" in str(
+                    (detail or {}).get("__text__")) and _kinds_ok(
                     K, ("eq-false", "text-2nd-gen-differs"), ("eq-false",)):
                 return "unique_values_eq-statistics-hold-a-frozenset"
             continue
@@ -199,11 +223,6 @@ def classify(route, kinds, tokens, detail):
             # handle_stat_dtype compares the column dtype with the *default*
             # DateTime()/Timedelta(): tz-aware or other-unit columns miss it
             return "statistic-conversion-requires-default-DateTime-or-Timedelta-dtype"
-        if place == "frame" and ac & {"ts-second", "ts-subsecond", "ts-tz",
-                                     "td"} and _kinds_ok(
-                K, ("write-exc:RepresenterError", "write-exc:TypeError"),
-                ("write-exc",)):
-            return "frame-level-check-datetimelike-statistic-not-converted"
         if "ts-subsecond" in ac and any(
                 t.startswith(f"{place}.dtype:datetime64[") and "," not in t
                 for t in T) and (_kinds_ok(
